@@ -175,6 +175,7 @@ class SimProc:
         self.opcount = 0
         self.mid_write = False
         self.rstate = None            # state of the `random` module as this process sees it
+        self.optimize = 0             # 1: this process runs as `python -O` (bisturi's asserts are compiled out)
         self.fileless = False         # the defining module has no __file__ (interactive session, exec'd code): bisturi then
                                       # falls back to ./__main__.py, i.e. a cache in the current directory keyed by class name only
 
@@ -321,7 +322,7 @@ class World:
         if proc.bisturi is None:
             SEAM.inside = True           # importing bisturi itself is not part of the experiment
             try:
-                proc.bisturi = import_fresh_bisturi(self.eng.tree)
+                proc.bisturi = import_fresh_bisturi(self.eng.tree, proc.optimize)
             finally:
                 SEAM.inside = False
         path = os.path.join(self.root, modname + ".py")
@@ -462,21 +463,21 @@ class CacheEngineBase(Engine):
                                   and (fam[a][1], fam[a][2]) == (fam[b][1], fam[b][2])]
 
     # ---- the clean twin -----------------------------------------------------------------
-    def twin(self, modname, text):
+    def twin(self, modname, text, optimize=0):
         """per class of the defining module: what that declaration is and does when it is defined
-        alone, by a pristine process, on an empty cache"""
-        key = (modname, text)
+        alone, by a pristine process (same interpreter optimisation level), on an empty cache"""
+        key = (modname, text, optimize)
         if key in self.twins:
             return self.twins[key]
         import re
         head, *blocks = re.split(r"\n(?=class \w+\(Packet\):)", text)
-        res = [self._twin_one(head + "\n" + b) for b in blocks]
+        res = [self._twin_one(head + "\n" + b, optimize) for b in blocks]
         self.twins[key] = res
         return res
 
-    def _twin_one(self, text):
-        if text in self.twins:
-            return self.twins[text]
+    def _twin_one(self, text, optimize=0):
+        if (text, optimize) in self.twins:
+            return self.twins[(text, optimize)]
         saved = SEAM.save()
         root = project.fresh_dir(os.path.join(self.wdir, "twin"))
         with REAL_IO_OPEN(os.path.join(root, "defs.py"), "w") as f:
@@ -486,6 +487,7 @@ class CacheEngineBase(Engine):
         w = World(self, Chooser(replay=[]), out, root, concurrent=False)
         w.clock_faults = False
         p = w.spawn("twin", bytecode=False)
+        p.optimize = optimize
         res = []
 
         def prog(proc):
@@ -504,7 +506,7 @@ class CacheEngineBase(Engine):
             w.run_alone(p, prog)
         finally:
             SEAM.restore(saved)
-        self.twins[text] = res[0]
+        self.twins[(text, optimize)] = res[0]
         return res[0]
 
     def check_proc(self, world, proc, label_prop):
@@ -517,7 +519,7 @@ class CacheEngineBase(Engine):
             PE = sys.modules["bisturi.packet"].PacketError
             Packet = sys.modules["bisturi.packet"].Packet
             for (modname, src, i, cls) in p.classes:
-                tw = self.twin_cached(modname, src)
+                tw = self.twins[(modname, src, p.optimize)]
                 if i >= len(tw):
                     continue
                 tb, tp, tu = tw[i]
@@ -538,7 +540,7 @@ class CacheEngineBase(Engine):
                     return
         # twins need a world of their own: compute them before swapping the process in
         for (modname, src, i, cls) in proc.classes:
-            self.twin(modname, src)
+            self.twin(modname, src, proc.optimize)
 
         def observing(p):
             SEAM.inside = True          # probing is observation, not part of the experiment
@@ -631,7 +633,7 @@ class CacheEngineBase(Engine):
         """name the declaration whose generated code this is, if it is one of the family"""
         idx = 1 if which == "pack_impl" else 2
         for v in VNAMES:
-            tw = self.twins.get(("defs", defs_text([("Foo", v)])))
+            tw = self.twins.get(("defs", defs_text([("Foo", v)]), 0))
             if tw and tw[0][idx] == sig:
                 return " (it is the code of variant %s)" % v
         return ""
@@ -705,7 +707,7 @@ class CacheSeqEngine(CacheEngineBase):
                    "code identity ignores file names and line numbers (a module differing only in comments is the same code)",
                    "the defining modules themselves (defs.py) are inputs, not part of the cache protocol"]
     expected_probes = ["cache-hit", "cache-rewrite", "pyc-accepted", "pyc-rejected", "orphan-pyc-at-load", "same-process-redefine",
-                       "name-collision-file", "janitor-restore", "janitor-mixed-restore", "bytecode-on", "bytecode-off", "fileless-module"]
+                       "name-collision-file", "janitor-restore", "janitor-mixed-restore", "bytecode-on", "bytecode-off", "fileless-module", "process-under-python-O"]
 
     def execute(self, scenario, ch):
         out = Outcome()
@@ -746,13 +748,16 @@ class CacheSeqEngine(CacheEngineBase):
                     if ch.chance("fileless-module", 1, 8):
                         proc.fileless = True
                         st["probe:fileless-module"] += 1
+                    if ch.chance("python -O", 1, 6):
+                        proc.optimize = 1
+                        st["probe:process-under-python-O"] += 1
                     st["probe:bytecode-on" if not proc.dont_write_bytecode else "probe:bytecode-off"] += 1
                     live.append(proc)
                     if len(live) > 3:
                         live.pop(0)
                 had_cache_before_last = bool(_pkts_listing(root))
                 self._probe_state(world, st, root)
-                ev("%s DEFINE %s (bytecode %s%s)" % (proc.label, which_mod, "off" if proc.dont_write_bytecode else "on", ", module without __file__" if proc.fileless else ""))
+                ev("%s DEFINE %s (bytecode %s%s)" % (proc.label, which_mod, "off" if proc.dont_write_bytecode else "on", (", module without __file__" if proc.fileless else "") + (", python -O" if proc.optimize else "")))
                 mark = len(out.events)
                 world.run_alone(proc, lambda p: world.define_run(p, which_mod))
                 self._define_probes(out.events[mark:], st)
@@ -994,6 +999,10 @@ class CacheConcEngine(CacheEngineBase):
             espec = [("Foo", SAME_SIZE[ch.draw("focus-c", 5)])] if focus else [(c, _draw_variant(ch, "mid")) for c, _ in spec]
             world.edit_plan = (1 + ch.draw("edit-at-step", 14), espec)
         procs = [world.spawn("c%d" % i, bytecode=ch.chance("bytecode-on", 1, 2)) for i in range(nproc)]
+        for p in procs:
+            if ch.chance("python -O", 1, 8):
+                p.optimize = 1
+                st["probe:process-under-python-O"] += 1
         if not focus and ch.chance("fileless-modules", 1, 10):
             for p in procs:
                 p.fileless = True
@@ -1031,6 +1040,8 @@ class CacheConcEngine(CacheEngineBase):
                 if ch.chance("tick-before-later", 1, 3):
                     SEAM.clock += [1.0, 3.0][ch.draw("tick", 2)]
                 lp = world.spawn("later%d" % i, bytecode=ch.chance("bytecode-on", 1, 2))
+                if ch.chance("python -O", 1, 8):
+                    lp.optimize = 1
                 before = _pkts_listing(root)
                 ev("%s DEFINE (bytecode %s)" % (lp.label, "off" if lp.dont_write_bytecode else "on"))
                 world.clock_faults = False
